@@ -321,7 +321,7 @@ def cross_runner(mod, facet, tier, seed, shard, nshards, stats):
 
 
 FACETS = [
-    Facet("threads", lambda: strategy("thread"), check, classify, quick=300, thorough=6000),
-    Facet("asyncio", lambda: strategy("async"), check, classify, quick=400, thorough=8000),
+    Facet("threads", lambda: strategy("thread"), check, classify, quick=300, thorough=40000),
+    Facet("asyncio", lambda: strategy("async"), check, classify, quick=400, thorough=60000),
     Facet("cross-effects", None, check_cross, classify_cross, quick=1, thorough=1, quick_shards=1, thorough_shards=1, runner=cross_runner),
 ]
